@@ -21,6 +21,17 @@ ASSUMPTIONS = [
 
 @st.composite
 def s_case(draw):
+    c = draw(s_case0())
+    if draw(st.integers(0, 7)) == 0:
+        # the corner of the stated domain: the smallest eye (1e-3 V) in the smallest unit (alpha = 1e-3), levels on round numbers of both units
+        # (dark level 0 or a whole multiple of d, beta 0 or whole): an eye of ~1e-6 V - anything absolute (decimals, epsilons) shows here
+        c.update(logd=draw(st.sampled_from([-3.0, -3.0, -2.5])), loga=draw(st.sampled_from([-3.0, -3.0, -2.75])), off=float(draw(st.integers(0, 2))),
+                 beta=float(draw(st.sampled_from([0, 0, 1, -1, 5]))), corner=True)
+    return c
+
+
+@st.composite
+def s_case0(draw):
     return {"pattern": draw(st.sampled_from(["random", "random", "prbs7", "prbs9"])), "nslots": draw(st.sampled_from([64, 96, 128, 200, 256, 512])),
             "sps": draw(st.sampled_from([8, 16, 32])), "logd": draw(st.one_of(st.floats(-3, 2), st.sampled_from([-3.0, -2.0, -1.0, 0.0, 0.5, 1.0, 1.5, 2.0]))),
             "off": draw(st.one_of(st.just(0.0), st.floats(-1, 1), st.floats(-10, 10), st.floats(-10, 10), st.floats(-1e3, 1e3), st.floats(-1e6, 1e6))), "bw": draw(st.floats(0.75, 1.5)), "sig": draw(st.floats(0.005, 0.05)),
@@ -140,7 +151,8 @@ def e_case(c):
     return {"nontrivial": bool(nt), "classes": [c["pattern"], f"sps{sps}", "d<0.1" if d < 0.1 else "d<=2" if d <= 2 else "d<=10" if d <= 10 else "d>10",
                                                  "offset>1000d" if abs(a) > 1000 * d else "offset>d" if abs(a) > d else "offset<=d", c["form"], prior,
                                                  "beta>1000d" if abs(c["beta"]) > 1000 else "beta<=1000d",
-                                                 "sps_resamp:np.int64" if c.get("resamp_np") else "sps_resamp:int"]}
+                                                 "sps_resamp:np.int64" if c.get("resamp_np") else "sps_resamp:int",
+                                                 "corner:1uV-eye" if c.get("corner") else "no-corner"]}
 
 
 def classify(part, case, v):
